@@ -337,7 +337,7 @@ def make_native_env(m):
     return {"returns": returns, "raises": raises}
 
 
-def verify_contract(c, reg=REG, timeout_ms=10000, max_paths=None):
+def verify_contract(c, reg=REG, timeout_ms=10000, max_paths=None, concrete=None):
     """-> (results, stats).  Every (clause, path) pair is one obligation."""
     results = []
     t_start = time.time()
@@ -380,7 +380,11 @@ def verify_contract(c, reg=REG, timeout_ms=10000, max_paths=None):
         env = {}
         try:
             for nme, kind in list(c.ghost.items()) + list(c.params.items()):
-                env[nme] = m.make_sym(nme, kind)
+                if concrete is not None and nme in concrete:
+                    # cross-check mode (verif.tools.crosscheck): the engine interprets code and clauses on CONCRETE values
+                    env[nme] = m.import_value(concrete[nme])
+                else:
+                    env[nme] = m.make_sym(nme, kind)
             if c.setup:
                 c.setup(m, env)
         except PyExc:
